@@ -6,7 +6,7 @@
    SymbolicName, raw DataType/ParentNodeId/MethodDeclarationId, URIs) are recorded findings.  Schema validity is decided by
    the oracle (lxml.XMLSchema with the bundled UANodeSet.xsd on every written document), not by a theorem. *)
 From Coq Require Import String Ascii List Bool Arith NArith ZArith.
-Require Import PyStr PyInt Sexp Xml M_C09 M_C08 Ns Table M_Parse M_Write T_Write.
+Require Import PyStr PyInt Sexp Xml M_C09 M_C08 Ns Table M_Parse M_Write T_Write T_Write2.
 Import ListNotations.
 Open Scope char_scope.
 
@@ -23,8 +23,15 @@ Theorem C07_self_contained_header : forall p w d, write_doc p w = Ok d ->
   (exists attrs req, d_models d = Some [{| me_attrs := (lit "ModelUri", u1) :: attrs; me_required := req |}]) /\ d_aliases d = Some [].
 Proof. exact write_doc_header. Qed.
 
+(* under the regularity conditions the first Uri and the ModelUri are the namespace that was asked for *)
+Theorem C07_names_written_namespace_first : forall p w d k refs,
+  str_index (wp_uri w) (p_namespaces p) = Some k -> use_refs p w (Z.of_nat k) = Ok refs -> regular p k refs -> write_doc p w = Ok d ->
+  exists rest attrs req, d_uris d = Some (wp_uri w :: rest) /\ d_models d = Some [{| me_attrs := (lit "ModelUri", wp_uri w) :: attrs; me_required := req |}].
+Proof. exact T_Write2.C06_first_uri. Qed.
+
 Print Assumptions C07_markup_never_broken.
 Print Assumptions C07_text_escape.
 Print Assumptions C07_attribute_escape.
 Print Assumptions C07_escaped_text_has_no_markup.
 Print Assumptions C07_self_contained_header.
+Print Assumptions C07_names_written_namespace_first.
